@@ -33,6 +33,19 @@ def lockRows (b : Buf) (x y w : Int) (lock : Bool) : Nat → Buf
   | 0 => b
   | m + 1 => lockRow (lockRows b x y w lock m) x (y + m) lock w.toNat
 
+/-- repaired tree only (fixes/C13-wide-left-of-locked.patch, screen.go LockRegion): after a row of the region has been
+    unlocked, a wide rune in the column just left of it (which drawCell showed as a blank while its right half was locked)
+    is marked dirty: `if _, _, _, w := cells.GetContent(x-1, j); w > 1 { cells.SetDirty(x-1, j, true) }` -/
+def redirtyLeft (b : Buf) (x y : Int) : Buf :=
+  if (b.getContent (x - 1) y).2.2.2 > 1 then b.setDirty (x - 1) y true else b
+
+/-- LockRegion of the repaired tree: `lockRows` with the re-dirtying step after each unlocked, non-empty row -/
+def lockRowsG (b : Buf) (x y w : Int) (lock : Bool) : Nat → Buf
+  | 0 => b
+  | m + 1 =>
+    let b' := lockRow (lockRowsG b x y w lock m) x (y + m) lock w.toNat
+    if lock = false ∧ w > 0 then redirtyLeft b' x (y + m) else b'
+
 /-- the screen together with the size its tty currently reports -/
 structure ScrW where
   s : Scr := {}
@@ -46,7 +59,9 @@ def ScrW.step (c : DrawCfg) (wd : ScrW) : ScrOp → ScrW × List Cmd
   | .setStyle st => ({ wd with s := if wd.s.fini then wd.s else { wd.s with style := st } }, [])
   | .showCursor x y => ({ wd with s := { wd.s with cursorx := x, cursory := y } }, [])
   | .setCursorStyle cs cc => ({ wd with s := { wd.s with cursorStyle := cs, cursorColor := cc } }, [])
-  | .lockRegion x y w h lock => ({ wd with s := { wd.s with cells := lockRows wd.s.cells x y w lock h.toNat } }, [])
+  | .lockRegion x y w h lock =>
+    ({ wd with s := { wd.s with cells := if c.guardLocked then lockRowsG wd.s.cells x y w lock h.toNat
+                                         else lockRows wd.s.cells x y w lock h.toNat } }, [])
   | .show => let r := wd.s.show c (some (wd.ttyw, wd.ttyh)); ({ wd with s := r.1 }, r.2)
   | .sync => let r := wd.s.sync c (some (wd.ttyw, wd.ttyh)); ({ wd with s := r.1 }, r.2)
   | .ttyResizeQuiet w h => ({ wd with ttyw := w, ttyh := h }, [])
